@@ -1,7 +1,7 @@
 (* Extraction of the executable model and oracles.  ExtrOcamlBasic only: numbers stay
    the extracted inductives (positive / N / Z / nat). *)
 From Coq Require Import ExtrOcamlBasic ZArith.
-From ZV Require Import Str Dec Rx RegexSrc Sanitize SanitizeSpec SemVer Pep440 Calendar Timestamp Zerv Render Convert Bump Ron Cli Hash Flow Template Git PyApi PyApiGen.
+From ZV Require Import Str Dec Rx RegexSrc Sanitize SanitizeSpec SemVer Pep440 Calendar Timestamp Zerv Render Convert Bump Ron Cli Hash Flow Template Git PyApi PyApiGen Pep440Nf.
 Extraction Language OCaml.
 Extraction "Extract/model.ml"
   N.div N.modulo N.add N.mul Z.add
@@ -25,5 +25,6 @@ Extraction "Extract/model.ml"
   Template.fn_format_timestamp Template.template_finish Template.pre_label_long Template.pre_label_code Zerv.short_hash Zerv.s_true Zerv.s_false
   PyApi.py_argv PyApiGen.py_version_base PyApiGen.py_version_table PyApiGen.py_flow_base PyApiGen.py_flow_table PyApiGen.py_check_base PyApiGen.py_check_table
   PyApiGen.py_render_base PyApiGen.py_render_table
+  Pep440Nf.pep_nf_b
   Git.git_vars Git.topo_ok Git.latest_tag Git.distance Git.ancestors
   Hash.hash_str Hash.hash_int Hash.hash_hex Flow.flow_zerv Flow.flow_output Flow.resolve_for_branch Flow.default_rules Flow.rule_valid.
